@@ -31,7 +31,8 @@ def xcontainer(cfg, ev):
     * Define: the recorded result is exactly what per-container checking gives, and that differs from checking all keys
       of the handler together;
     * Eval: a typed key (short character, long key or its abbreviation) matches keys of both containers, or matches an
-      argument whose key collides with one of the other container."""
+      argument whose key collides with one of the other container, or an argument whose definition result differs between
+      per-container and joint checking (a refused / accepted definition earlier in the table changes what is stored later)."""
     if not cfg or not cfg.get("args"):
         return False
     args = cfg["args"]
@@ -39,21 +40,26 @@ def xcontainer(cfg, ev):
     if not any(issub) or all(issub):
         return False
     n = len(args)
+    def define(per_container):
+        stored, res = [], []
+        for k in range(n):
+            if any(_collide(args[k], args[j]) for j in stored if not per_container or issub[j] == issub[k]):
+                res.append("refused")
+            else:
+                res.append("ok"); stored.append(k)
+        return res
     if ev.get("e") == "Define":
         if ev.get("mode") != "handler":
             return False
-        def define(per_container):
-            stored, res = [], []
-            for k in range(n):
-                if any(_collide(args[k], args[j]) for j in stored if not per_container or issub[j] == issub[k]):
-                    res.append("refused")
-                else:
-                    res.append("ok"); stored.append(k)
-            return res
         return ev.get("res") == define(True) and define(True) != define(False)
     if ev.get("e") != "Eval" or ev.get("mode") != "handler":
         return False
     clash = {k for k in range(n) for j in range(n) if issub[j] != issub[k] and _collide(args[k], args[j])}
+    # consequence of the same finding in "lenient" set-ups: a definition that per-container checking accepts although the key is
+    # taken (or refuses because such an argument was accepted before it) changes which later arguments the handler holds
+    dper, dall = define(True), define(False)
+    differs = {k for k in range(n) if dper[k] != dall[k]}
+    clash |= differs | {k for k in range(n) for j in differs if _collide(args[k], args[j])}
     abbr = cfg.get("abbr", True)
     for w in ev.get("argv", []):
         t = _s(w)
